@@ -457,7 +457,7 @@ def m_copied(E, path, a): return ['copied', a[0]]
 def m_rev(E, path, a): return ['rev', a[0]]
 def m_into_iter(E, path, a):
     v = a[0]
-    if v.__class__ is list and v and v[0] in ('iter', 'enum', 'copied', 'rev', 'range', 'arr', 'chain', 'take', 'skip', 'map', 'filter', 'take_while', 'skip_while'): return v
+    if v.__class__ is list and v and v[0] in ('iter', 'enum', 'copied', 'rev', 'range', 'arr', 'chain', 'chunks', 'take', 'skip', 'map', 'filter', 'take_while', 'skip_while'): return v
     if v.__class__ is EnumV and v.ty == 'Option': return m_opt_into_iter(E, path, [v])
     if v.__class__ is Ref: s = as_slice_ref(E, v); return ['iter', s, 0, s.meta]
     if v.__class__ is list and len(v) == 2 and all(x.__class__ is IntV for x in v): return ['range', v[0], v[1]]
@@ -474,6 +474,15 @@ def it_next(E, it, back=False):
         r = sub_slice(it[1], i, None)
         c, kk = nav(r)
         if kk >= len(c): raise Panic('oob', 'slice iterator past allocation')
+        return opt_some(E, r)
+    if k == 'chunks':
+        if back: raise Unsupported('chunks iterator from the back')
+        rem = it[1].meta - it[2]; sz = it[3]
+        if sz == 0: raise Panic('panic', 'chunk size must be non-zero')
+        if rem >= sz: n = sz
+        elif rem > 0 and not it[4]: n = rem
+        else: return opt_none(E)
+        r = sub_slice(it[1], it[2], n); it[2] += n
         return opt_some(E, r)
     if k == 'copied':
         x = it_next(E, it[1], back)
@@ -540,6 +549,23 @@ def it_next(E, it, back=False):
             if not E.branch_bool(call_closure(E, it[2], [Ref(box, (0,), None, 'local')])): it[3] = True; return x
         return it_next(E, it[1])
     raise Unsupported('iterator ' + str(k))
+
+
+def m_chunks_exact(E, path, a):
+    s = as_slice_ref(E, a[0]); return ['chunks', s, 0, cint(E, a[1], 0, 1 << 16), True]
+def m_chunks(E, path, a):
+    s = as_slice_ref(E, a[0]); return ['chunks', s, 0, cint(E, a[1], 0, 1 << 16), False]
+
+
+def m_copy_from_slice(E, path, a):
+    dst, src = as_slice_ref(E, a[0]), as_slice_ref(E, a[1])
+    n = dst.meta
+    if src.meta != n: raise Panic('panic', f'copy_from_slice: source length {src.meta} does not match destination length {n}')
+    elems = read_elems(E, src, n, 'copy_from_slice read')
+    c, k = nav(dst)
+    if k < 0 or k + n > len(c): raise Panic('oob', f'out-of-bounds copy_from_slice write: {n} element(s) at offset {k} of an allocation of {len(c)}')
+    for i, v in enumerate(elems): c[k + i] = clone(v)
+    return UNIT
 
 
 def m_chain(E, path, a): return ['chain', m_into_iter(E, path, [a[0]]), m_into_iter(E, path, [a[1]]), 0]
@@ -904,7 +930,10 @@ MODELS = [
     (r'as Iterator>::copied$|as Iterator>::cloned$', m_copied),
     (r'as Iterator>::rev$', m_rev),
     (r'as IntoIterator>::into_iter$', m_into_iter),
-    (r'^<(.*::)?(slice::Iter|slice::IterMut|Enumerate|Copied|Cloned|Rev|Range|array::IntoIter|IntoIter|Chain|Take|Skip|Map|Filter|TakeWhile|SkipWhile|option::Iter)<.*> as Iterator>::next$', m_it_next),
+    (r'(^|::)slice::<impl \[.*\]>::chunks_exact$', m_chunks_exact),
+    (r'(^|::)slice::<impl \[.*\]>::chunks$', m_chunks),
+    (r'(^|::)slice::<impl \[.*\]>::copy_from_slice$', m_copy_from_slice),
+    (r'^<(.*::)?(slice::Iter|slice::IterMut|slice::ChunksExact|slice::Chunks|ChunksExact|Chunks|Enumerate|Copied|Cloned|Rev|Range|array::IntoIter|IntoIter|Chain|Take|Skip|Map|Filter|TakeWhile|SkipWhile|option::Iter)<.*> as Iterator>::next$', m_it_next),
     (r'as DoubleEndedIterator>::next_back$', m_it_next_back),
     (r'as ExactSizeIterator>::len$', m_it_len),
     (r'as Iterator>::chain', m_chain), (r'as Iterator>::take$|as Iterator>::take::', m_it_take), (r'as Iterator>::skip$', m_it_skip),
@@ -1118,6 +1147,19 @@ def m_from_utf8_lossy(E, path, a):
     raise Panic('alloc', 'heap allocation: String::from_utf8_lossy on malformed UTF-8 builds an owned String')
 
 
+def m_env_var(E, path, a):
+    """std::env::var / var_os: the process environment is an input the engine leaves nondeterministic; if the variable is set the result
+    is an owned String / OsString, i.e. a heap allocation inside the call (C19). The variable's name goes into the failure text so
+    that the native replay can set it."""
+    name = '?'
+    try:
+        r = a[0]; c, k = nav(r)
+        name = bytes(x.v for x in c[k:k + (r.meta or 0)]).decode('ascii', 'replace')
+    except Exception: pass
+    raise Panic('alloc', f'heap allocation: {path} returns an owned string when the variable is set [env {name}]')
+
+
+MODELS.insert(0, (r'(^|::)env::var(_os)?(::<.*>)?$|^var_os(::<.*>)?$', m_env_var))
 MODELS.insert(0, (r'from_utf8_lossy$', m_from_utf8_lossy))
 ALLOC_PATTERN = r"alloc::|__rust_alloc|(^|::|<)vec::|(^|::|<)Vec(::|<)|(^|::|<)String(::|<)|(^|::)string::|(^|::)boxed::|(^|::|<)Box(::|<)|collections::|to_vec$|to_owned$|to_string$|into_boxed|fmt::format$|::format$|(^|::)Rc(::|<)|(^|::)Arc(::|<)"
 MODELS.insert(1, (ALLOC_PATTERN, m_alloc))
